@@ -786,6 +786,189 @@ def correspond_connect_all(ctx, impl, rng, model_ok):
     ctx.extra["connect_all_disagreements"] = bad
 
 
+# ------------------------------------------------------------------------------ Tor handlers whose Tor is not there
+
+# the family "a hint the handler cannot use" (by what makes it unusable), and three that it can use.  All short: these run
+# in-process, and a tree with a super-linear pattern (the CPU-time probes' business, in child processes) must not hang here
+TOR_UNUSABLE = [
+    ("malformed host", "tor:not@a@hint:123"), ("six-digit port", "tor:example.onion:123456"), ("no port", "tor:example.onion"),
+    ("empty port", "tor:example.onion:"), ("RFC1918 address", "tcp:10.0.0.1:1234"), ("loopback address", "tcp:127.0.0.1:80"),
+    ("unspecified address", "tor:0.0.0.0:0"), ("multicast address", "tor:224.0.0.1:9"), ("bracketed IPv6", "tor:[::1]:5"),
+    ("non-decimal digit in the port", "tor:example.onion:8\u00b2"), ("trailing newline twice", "tor:example.onion:80\n\n"),
+    ("empty string", ""), ("no colon", "nocolon"), ("only colons", ":::"),
+]
+TOR_USABLE = ["tor:example.onion:80", "tcp:8.8.8.8:53", "x:a.b:99999"]
+
+
+def tor_state_name(st):
+    setup, stage, mode = st
+    if stage is None:
+        return "tor.%s() with a Tor that is there" % setup
+    how = {"never": "never gets past", "fails": "fails at", "up-later": "is still at", "fails-later": "is still at (and will fail at)"}[mode]
+    return "tor.%s() whose Tor %s the stage '%s'" % (setup, how, stage)
+
+
+def oracle_tor_states(ctx, impl, hints):
+    """classification by a Tor handler is by the string alone: a hint that a handler with a ready Tor rejects with
+    InvalidHintError is rejected at once by EVERY Tor handler (each public constructor of connections/tor.py) in EVERY state of
+    its Tor (launch / control-port maker / control connection / bootstrap pending for ever, failing, succeeding or failing
+    later; no usable SocksPort) -- never left waiting for the Tor, never answered with the Tor's own error; a hint that is
+    accepted ends in the same endpoint once the Tor is there, and until then / instead only waits / fails with the Tor.
+    Directly on handler.hint_to_endpoint and through connection.get_endpoint; several hints to one handler, as for one FURL."""
+    states = impl.tor_states()
+    ctx.extra["tor_states"] = len(states)
+    ref_cache = {}
+
+    def ref(h):
+        if h not in ref_cache:
+            ref_cache[h] = impl.hint_to_endpoint("tor", h)          # the classification: a handler that never waits
+        return ref_cache[h]
+
+    def judge(st, via, batch, res):
+        setup, stage, mode = st
+        for h, o in zip(batch, res):
+            r = ref(h)
+            now, later = o["now"], o["later"]
+            ctx.case(["tor-state", setup, stage, mode, via, h], nontrivial=True)
+            if via == "get_endpoint":
+                # the dispatch in front of the handler: legacy conversion, then only "tor:" / "tcp:" hints reach it
+                c = impl.convert_legacy(h)
+                h2 = c[1] if c[0] == "ok" else h
+                r = ref(h2) if (":" in h2 and h2.split(":", 1)[0] in ("tor", "tcp")) else ("exc", "InvalidHintError", True)
+            kind = "endpoint" if r[0] == "ok" else ("invalid" if r[2] else "other")
+            ctx.hist("tor handler state", "%s/%s: %s hint" % (stage or "ready", mode or "-", kind))
+            where = "%s, %s" % (tor_state_name(st), "handler.hint_to_endpoint" if via == "handler" else "connection.get_endpoint")
+            rep = dict(hint=h, hints_given_to_the_handler=batch, setup=setup, stage=stage, mode=mode, via=via, observed=o, classification=list(r),
+                       python="harness.c20_impl.tor_probe(%r, %r, %r, %r, %r)" % (setup, stage, mode, batch, via))
+            if kind == "other":
+                continue                                            # already reported by the plain hint oracle
+            if kind == "invalid":
+                if now == ["pending"]:
+                    ctx.fail("oracle/hint-classification-stalls",
+                             "%s: the hint %r is not usable (%s) and a handler with a ready Tor answers InvalidHintError, but here the Deferred "
+                             "is still unanswered when the reactor is idle: the classification waits for the Tor (afterwards: %s)"
+                             % (where, h[:60], "InvalidHintError", later[1] if len(later) > 1 else "still pending"), replay=rep)
+                elif now[0] != "exc" or not now[2]:
+                    ctx.fail("oracle/hint-other-exception" if now[0] == "exc" else "oracle/hint-depends-on-tor-state",
+                             "%s: the unusable hint %r ended in %s, not in InvalidHintError (which a handler with a ready Tor answers)"
+                             % (where, h[:60], now[1] if now[0] == "exc" else "an endpoint"), replay=rep)
+                continue
+            # an accepted hint: its fate is the Tor's
+            if stage is None:
+                want_now = want_later = ["ok", list(r[1])]
+            elif mode == "fails":
+                want_now = want_later = ["exc", "ValueError" if stage == "socksport" else "TorDown", False]
+            else:
+                want_now = ["pending"]
+                want_later = {"never": ["pending"], "up-later": ["ok", list(r[1])], "fails-later": ["exc", "TorDown", False]}[mode]
+            if now != want_now or later != want_later:
+                ctx.fail("oracle/hint-depends-on-tor-state",
+                         "%s: the usable hint %r (endpoint %r with a ready Tor): the caller holds %r, later %r; expected %r, later %r"
+                         % (where, h[:60], r[1], now, later, want_now, want_later), replay=rep)
+
+    # 1. fixed witnesses: every kind of unusable hint, each ALONE on a fresh handler, in every state; then as one batch with
+    #    usable hints around them (the Tor has been asked for by an earlier hint)
+    fixed = [h for _, h in TOR_UNUSABLE]
+    for st in states:
+        for via in ("handler", "get_endpoint"):
+            if via == "get_endpoint" and st[0] not in ("launch", "control_endpoint_maker", "default_socks"):
+                continue
+            for h in (fixed if via == "handler" else fixed[:6]):
+                judge(st, via, [h], impl.tor_probe(st[0], st[1], st[2], [h], via))
+            batch = [TOR_USABLE[0]] + fixed[:8] + TOR_USABLE[1:] + fixed[8:]
+            judge(st, via, batch, impl.tor_probe(st[0], st[1], st[2], batch, via))
+    # 2. the generated hint stream, five to a handler, round-robin over the states
+    k = 0
+    for i in range(0, len(hints), 5):
+        st = states[k % len(states)]
+        k += 1
+        batch = hints[i:i + 5]
+        judge(st, "handler", batch, impl.tor_probe(st[0], st[1], st[2], batch, "handler"))
+
+
+def oracle_tor_tub(ctx, impl):
+    """"an untrusted FURL cannot stall the process", with a Tor handler registered whose Tor is still starting / cannot be had:
+    a FURL whose tor hints are all unusable is answered at once (nothing to wait for), and a usable tcp hint next to them is
+    dialled at once"""
+    t = TUBS3[0]
+    bad = "tor:not@a@hint:123,tor:10.0.0.1:80,tor:example.onion:123456"
+    for st in (("launch", "launch", "never"), ("control_endpoint_maker", "maker", "never"), ("control_endpoint", "connect", "fails"),
+               ("control_endpoint_maker", "bootstrap", "fails-later")):
+        plugins = {"tor": "tor@%s@%s@%s" % st}
+        for label, furl, usable in (("only unusable tor hints", "pb://%s@%s/gift" % (t, bad), False),
+                                    ("a usable tcp hint after unusable tor hints", "pb://%s@%s,tcp:good.example.org:1234/real" % (t, bad), True)):
+            evs = [["getref", furl], ["advance", 1]]
+            try:
+                obs = impl.tub_history(evs, plugins=plugins)
+            except Exception as e:  # noqa
+                ctx.fail("oracle/hint-exception-not-contained", "%s, Tub with %s: getReference / the reactor turn raised %s: %s"
+                         % (label, tor_state_name(st), type(e).__name__, e), replay=dict(events=evs, handlers=plugins))
+                continue
+            ctx.case(["tor-tub", label, list(st)], nontrivial=True)
+            connects = [tuple(c) for o in obs for c in o["connects"]]
+            if usable and (("good.example.org", 1234) not in [tuple(c) for c in obs[0]["connects"]] or 0 in obs[0]["fired"]):
+                ctx.fail("oracle/getreference-stalls", "%s: getReference(%r) on a Tub whose \"tor\" handler is %s: connection attempts started "
+                         "at once %r (all: %r), answered early: %r -- tcp:good.example.org:1234 must be dialled whatever the Tor does"
+                         % (label, furl, tor_state_name(st), obs[0]["connects"], connects, obs[0]["fired"]),
+                         replay=dict(events=evs, handlers=plugins, observations=obs, python="harness.c20_impl.tub_history(%r, plugins=%r)" % (evs, plugins)))
+            if not usable and 0 not in obs[0]["fired"]:
+                ctx.fail("oracle/getreference-stalls", "%s: getReference(%r) on a Tub whose \"tor\" handler is %s is still unanswered when the "
+                         "reactor is idle%s: no hint of the FURL is usable, there is nothing to wait for"
+                         % (label, furl, tor_state_name(st), " and one second later" if 0 not in obs[-1]["fired"] else ""),
+                         replay=dict(events=evs, handlers=plugins, observations=obs, python="harness.c20_impl.tub_history(%r, plugins=%r)" % (evs, plugins)))
+
+
+TOR_MODEL_STATES = [   # (model state, real handler in that state)
+    ("TorReady", ("control_endpoint_maker", None, None)), ("TorReady", ("default_socks", None, None)),
+    ("TorStarting", ("control_endpoint_maker", "maker", "never")), ("TorStarting", ("launch", "launch", "never")),
+    ('(TorFails "TorDown")', ("control_endpoint_maker", "maker", "fails")), ('(TorFails "TorDown")', ("launch", "launch", "fails")),
+    ('(TorFails "ValueError")', ("control_endpoint", "socksport", "fails")),
+]
+
+
+def correspond_tor_states(ctx, impl, hints):
+    """lib/TorState.v tor_handler (the translated step order against a Tor that is ready / starting / failing) and real handlers in
+    those states, on the same hints"""
+    pool = [h for _, h in TOR_UNUSABLE] + TOR_USABLE
+    cases = [(h, ms, st) for h in pool for ms, st in TOR_MODEL_STATES]
+    for i, h in enumerate([h for h in hints if len(h) < 200][:ctx.n(100, 1800)]):
+        ms, st = TOR_MODEL_STATES[i % len(TOR_MODEL_STATES)]
+        cases.append((h, ms, st))
+    rows = []
+    for h, ms, st in cases:
+        nps = []
+        sp = impl.run_pattern("TOR_HINT_RE", h)
+        if sp is not None:
+            host = h[sp[1][0]:sp[1][1]]
+            if impl.nonpublic(host) == ("ok", True):
+                nps.append(host)
+        rows.append("(%s%%Z, %s, %s)" % (zs(h), ms, coq_list([zs(x) + "%Z" for x in nps])))
+    vals = []
+    CH = 500
+    for k in range(0, len(rows), CH):
+        body = ("\nDefinition cases : list (list Z * tor_state * list (list Z)) := " + coq_list(rows[k:k + CH]) + ".\n"
+                "Eval vm_compute in map (fun c => let '(s, st, nps) := c in outcome_code (tor_handler (fun h => existsb (list_eqb h) nps) st s)) cases.\n")
+        try:
+            (v,) = ctx.coq_eval("C20_tor_%d" % (k // CH), body, requires=REQ + ["Verif.lib.TorState"])
+        except common.CoqEvalError as e:
+            ctx.fail("correspondence-broken", "the Tor-state model could not be evaluated: " + tail(str(e), 1200), has_input=False)
+            return
+        vals += v
+    bad = 0
+    for (h, ms, st), mine in zip(cases, vals):
+        o = impl.tor_probe(st[0], st[1], st[2], [h], "handler")[0]["now"]
+        theirs = [[-9]] if o == ["pending"] else ep_obs(("ok", o[1]) if o[0] == "ok" else ("exc", o[1], o[2]))
+        ctx.traces += 1
+        if mine != theirs:
+            bad += 1
+            if bad <= 2:
+                ctx.fail("correspondence/tor-state", "model tor_handler and the real handler disagree on the hint %r with %s (model state %s): "
+                         "model %r, implementation %r ([[-9]] = the caller is still waiting)" % (h, tor_state_name(st), ms, mine, theirs),
+                         replay=dict(hint=h, setup=list(st), model=mine, impl=theirs), has_input=False)
+    ctx.extra["tor_state_correspondence_cases"] = len(cases)
+    ctx.extra["tor_state_correspondence_disagreements"] = bad
+
+
 # ------------------------------------------------------------------------------ SturdyRefs that arrive as copies
 
 TUBS3 = ["q5l37rle6pojjnllrwjyryulavpqdlq5", "u5vgfpug7qhkxdtj76tcfh6bmzyo6w5s", "abc"]
@@ -1203,7 +1386,7 @@ def run(ctx):
                 "literal prefix, grammar-generated hints/FURLs and 1-2 character mutations of them (special characters "
                 ": . [ ] %% - , / @ newline, non-ASCII digits, Kelvin sign, NUL); function cases = FURL strings through "
                 "decode_furl/encode_furl/SturdyRef and (hint, handler set) through convert_legacy_hint/get_endpoint with the "
-                "real tcp/tor/i2p handlers; well-formed (tub id, hints, name) triples over the full alphabet of each field ('@' ':' '%%' "
+                "real tcp/tor/i2p handlers; (hint, Tor handler constructor, stage at which its Tor sticks, pending / failing / later) with 14 kinds of unusable hint as fixed witnesses; well-formed (tub id, hints, name) triples over the full alphabet of each field ('@' ':' '%%' "
                 "newline unicode in hints, '/' '@' ',' in names, ignored tub id extension) through encode_furl then decode_furl / "
                 "SturdyRef / TubRef, str and bytes; history cases = decode a FURL, mutate the hint list of that result (6 kinds, str and bytes), "
                 "decode an equal string again; non-trivial = decoded successfully / contains a colon; CPU time on %d adversarial "
@@ -1212,7 +1395,11 @@ def run(ctx):
         "sre's work is within a constant factor of the model matcher's step count (checked only by CPU-time growth on adversarial families)",
         "\\d, str.lower and int() digit values are taken from the running interpreter's unicodedata (regenerated every run)",
         "tor.is_non_public_numeric_address (ipaddress module) is an input of the model; its own totality is tested, not proved",
-        "the handlers are exercised up to the endpoint constructor (tor: _maybe_connect returns at once; i2p: constructor arguments recorded)",
+        "the handlers are exercised up to the endpoint constructor (i2p: constructor arguments recorded); the Tor handlers additionally with a Tor that is ready / "
+        "pending for ever / failing / succeeding or failing later at each stage of each public constructor's _connect (txtorcon.launch_tor, build_tor_connection, "
+        "TorConfig.from_protocol and allocate_tcp_port replaced by gates; no Tor process, no sockets)",
+        "tor._Common._maybe_connect / observer.OneShotObserverList are hand-modelled as the three Tor states of lib/TorState.v (ready / starting / fails with e), "
+        "tied by ordered shape facts and by the comparison with real handlers in those states; add_context's status update is dropped and assumed not to raise",
         "six.ensure_str on bytes = strict UTF-8 decoding is hand-modelled (Furl.utf8_dec) and compared with the real decode_furl on bytes; non-str/bytes arguments (TypeError) are outside the quantifier",
         "a third-party plugin is abstracted to the outcome of its hint_to_endpoint per hint (endpoint / exception class); a Deferred it returns is taken at its final result",
         "TubConnector.connectToAll / _connectionFailed / checkForFailure / failed are hand-modelled (lib/ConnectAll.v: endpoints that are dialled never answer), tied by ordered shape facts and compared with real TubConnectors on every run; _connectionFailed's own logging / str(reason.value) is assumed not to raise",
@@ -1318,6 +1505,7 @@ def run(ctx):
     oracle_identity(ctx, impl, variants + ident)
     for h, hs in hint_cases:
         oracle_hint(ctx, impl, h, hs)
+    oracle_tor_states(ctx, impl, hints[:ctx.n(250, 20000)])
     ctx.sample(dict(furl=furls[0], decoded=repr(impl.decode(furls[0]))))
     ctx.sample(dict(hint=hints[0], handlers=hint_cases[0][1], result=repr(impl.get_endpoint(*hint_cases[0]))))
     ctx.sample(dict(hint=hints[1], handlers=hint_cases[1][1], result=repr(impl.get_endpoint(*hint_cases[1]))))
@@ -1355,6 +1543,11 @@ def run(ctx):
         correspond_regex(ctx, impl, rx)
         correspond_functions(ctx, impl, furls, hint_cases)
         correspond_bytes(ctx, impl, furls, rng)
+        ok_t = True
+        if not ok:
+            ok_t, _ = ctx.coq_build(["lib/TorState.vo"])
+        if ok_t:
+            correspond_tor_states(ctx, impl, hints)
         if ok:
             model_steps(ctx, impl)
 
@@ -1363,6 +1556,7 @@ def run(ctx):
     id_pairs = oracle_identity_copies(ctx, impl, rng)
     tub_cases = oracle_tub_histories(ctx, impl, rng)
     oracle_containment(ctx, impl)
+    oracle_tor_tub(ctx, impl)
     ok_ca = model_ok
     if model_ok and not ok:
         ok_ca, _ = ctx.coq_build(["lib/ConnectAll.vo"])
